@@ -381,6 +381,7 @@ func (r *Rerunner) run() {
 	}
 	r.flushMu.Unlock()
 
+	verifEv("yield", r, nil)
 	r.mu.Lock()
 	defer r.mu.Unlock()
 
@@ -395,6 +396,7 @@ func (r *Rerunner) run() {
 		// Delay the rerun in order to emulate write-then-read consistency.
 		time.Sleep(WriteThenReadDelay)
 	}
+	verifEv("yield", r, nil)
 	r.cache.cleanInvalidated()
 
 	// Cancel the context passed to "run". Canceling the context ensures that
